@@ -228,7 +228,10 @@ func genFaultItems(r *rng, docs []Doc, lay Layout) []faultItem {
 			}
 			items = append(items, it)
 		case 3: // X2 yaml without kind / empty / comments
-			t := pick(r, []string{"foo: bar\n", "", "# only a comment\n", "---\n", "- a\n- b\n", "version: 3\nservices:\n  web:\n    image: x\n"})
+			t := pick(r, []string{"foo: bar\n", "", "# only a comment\n", "---\n", "- a\n- b\n", "version: 3\nservices:\n  web:\n    image: x\n",
+				// a List whose items say no kind: the scan reports them together, as one error made of several
+				"apiVersion: v1\nkind: List\nitems:\n- apiVersion: v1\n  metadata:\n    name: a\n- apiVersion: v1\n  metadata:\n    name: b\n",
+				"apiVersion: v1\nkind: List\nitems:\n- metadata:\n    name: a\n- apiVersion: v1\n  kind: ConfigMap\n  metadata:\n    name: ok\n- apiVersion: v1\n  data: {}\n- foo: bar\n"})
 			items = append(items, faultItem{Kind: "X2.nokind", Path: fresh(pick(r, []string{".yaml", ".yml"})), Text: t})
 		case 4: // X3 broken yaml
 			t := pick(r, brokenYAML)
